@@ -1,11 +1,17 @@
 package main
 
-import "golang.org/x/tools/go/ssa"
+import (
+	"fmt"
+
+	"golang.org/x/tools/go/ssa"
+)
 
 func init() { register("C01", checkC01) }
 
 // C01 — AOL records are append-only: immutable, never deleted, densely numbered.
 func checkC01(p *Prog, r *Report) {
+	checkNoDroppedErrors(p, r, "C01", "x/aol/keeper, x/aol/types", func(fn *ssa.Function) bool { return InPkgs(fn, "x/aol/keeper", "x/aol/types") })
+	checkNoNilWrap(p, r, "C01", "x/aol/keeper, x/aol/types", func(fn *ssa.Function) bool { return InPkgs(fn, "x/aol/keeper", "x/aol/types") })
 	r.Explain = "Decided statically (structural necessary conditions, all paths): D1 only the AddRecord handler and InitGenesis can reach a Set under the record prefix, nothing deletes under the owner/topic/record prefixes, every aol store operation is an accessor of one prefix<->key-type family; D2 in the add-record handler the record key's offset is the TotalRecords field of the topic value read under the same (owner, topic) key, the response reports that same term, record content/writer/timestamp come from the message and ctx.BlockTime(); D3 on every success path the record write is paired with storing that topic back with TotalRecords+1 and every other field copied; D4 the aol store key is created, mounted and given only to the aol keeper, no upgrade deletes/renames it and no upgrade handler reaches an aol mutator. By induction over transactions D1-D3 give TotalRecords = #records, a fresh key per append and no later write to an existing record key. Key injectivity is C18. D5 list accessors decode each entry into a variable that is allocated or reset inside the loop (generated Unmarshal merges into its target)."
 	r.NotDec = []string{"IAVL/cache-store semantics", "protobuf round trip of Record", "hand-edited genesis files (InitGenesis trusts its input)", "uint64 overflow at 2^64 records"}
 	r.Trusted = []string{"cosmos-sdk v0.47.12 store/prefix, baseapp", "go/ssa (x/tools v0.29.0)"}
@@ -17,9 +23,20 @@ func checkC01(p *Prog, r *Report) {
 		}
 		return false
 	})
+	// the Record view (and its siblings): Has guards Get on the same key, key from the request, no name a record can be stored
+	// under is refused
+	aolListings(p, r, buildAolModel(p), "C01")
+	// an acknowledged record survives export/import only if its key's string form splits back: the separator is in no component
+	if sepC, ok := p.ConstVal(Rel(aolTypesPkg), "GenesisKeySeparator"); ok {
+		var sep string
+		fmt.Sscanf(sepC, "%q", &sep)
+		if len(sep) == 1 {
+			checkSeparatorOutsideComponents(p, r, func(rule, rest string) string { return rule + ":C01:" + rest }, sep)
+		}
+	}
 	wireAolStore(p, r, "C01")
 	checkInitGenesisCallers(p, r, "C01", "x/aol")
-	r.Floor("in-loop-decode-targets(x/aol)", checkLoopFreshDecode(p, r, "C01", func(fn *ssa.Function) bool { return InPkgs(fn, "x/aol") }), 2)
+	r.Floor("in-loop-decode-targets(x/aol)", checkLoopFreshDecode(p, r, "C01", func(fn *ssa.Function) bool { return InPkgs(fn, "x/aol/keeper", "x/aol/types") }), 2)
 	checkNoLanguageDowngrade(p, r, "C01")
 	checkModuleExtensionInterfaces(p, r, "C01", []string{"x/aol"})
 }
